@@ -139,6 +139,10 @@ func c05(c *core.Ctx, r *core.Report) {
 	rule(r, "C05.R1", joinRuleText, func() {
 		before := countViolations(r)
 		joinRule(c, r, f)
+		if f.stop != nil && f.stopCall != nil && f.stopRecv != nil {
+			r.Check(an.Dominates(f.stopCall, f.stopRecv), core.FuncName(f.stop)+"#cancel-before-wait", an.Pos(c, f.stopCall),
+				"Stop cancels the runner's context before it waits for the goroutine", "Stop waits for the runner goroutine before cancelling it: the run never returns")
+		}
 		joinOK = countViolations(r) == before
 	})
 
@@ -505,7 +509,7 @@ func c05(c *core.Ctx, r *core.Report) {
 				r.Check(bounded, key, an.Pos(c, sel), "completion wait bounded by a timeout / live cancellation arm", "wait for completion is not bounded: "+why)
 			}
 		}
-		r.Floor("waits on the completion channel", n, 4)
+		r.Floor("waits on the completion channel", n, 2)
 	})
 
 	rule(r, "C05.R6", "every goroutine root can exit: each loop in it has an exit edge (not counting panics), so that it ends once its context is done / channel closed / flag set", func() {
@@ -569,7 +573,7 @@ func c05(c *core.Ctx, r *core.Report) {
 		}
 		parent := an.D().Of(wt.Call.Args[0])
 		r.Check(parent == "$ctx" || strings.HasPrefix(parent, "$"), key+"#parent", an.Pos(c, wt), "trigger context derived from the caller's context "+parent, "trigger context derived from "+parent+", not from the caller's context: cancellation does not stop triggering")
-		dl := an.D().Of(wt.Call.Args[1])
+		dl := an.DI().Of(wt.Call.Args[1])
 		bo, isSub := an.Strip(wt.Call.Args[1]).(*ssa.BinOp)
 		okDl := isSub && bo.Op == token.SUB && isConst(bo.Y) && strings.Contains(dl, "options.MaxDuration") && strings.Contains(dl, "trigger.Duration")
 		if okDl {
@@ -579,7 +583,8 @@ func c05(c *core.Ctx, r *core.Report) {
 		r.Check(okDl, key+"#timeout", an.Pos(c, wt), "timeout = "+dl, "trigger timeout is "+dl+": expected min(max-duration, trigger duration) minus a positive guard")
 		// the shorter-duration choice
 		choice := false
-		an.Instrs(loop, func(in ssa.Instruction) {
+		an.Flatten(loop, 2, nil, func(e an.Event) {
+			in := e.Instr
 			if b, ok := in.(*ssa.BinOp); ok && (b.Op == token.LSS || b.Op == token.GTR) {
 				d := an.D().Of(b)
 				if strings.Contains(d, "trigger.Duration") && strings.Contains(d, "options.MaxDuration") {
